@@ -513,6 +513,11 @@ HINTS = {
     ("BinaryPigeonholePrinciple", "holes"): lambda rng, ctx: rng.choice([0, 1, 2, 3, 4, 5, 8, 9, -1]),
     ("PigeonholePrinciple", "pigeons"): lambda rng, ctx: rng.choice([0, 1, 2, 3, 4, 5, -1]),
     ("PigeonholePrinciple", "holes"): lambda rng, ctx: rng.choice([0, 1, 2, 3, 4, -1]),
+    ("RamseyNumber", "s"): lambda rng, ctx: rng.choice([1, 2, 3, 4, 0, -1]),
+    ("RamseyNumber", "k"): lambda rng, ctx: rng.choice([1, 2, 3, 4, 5, 0]),
+    ("RamseyNumber", "N"): lambda rng, ctx: rng.choice([0, 1, 2, 3, 4, 5, 6, -1]),
+    ("CountingPrinciple", "M"): lambda rng, ctx: rng.choice([0, 1, 2, 3, 4, 5, 6, 7, -1]),
+    ("CountingPrinciple", "p"): lambda rng, ctx: rng.choice([1, 2, 3, 4, 8, 0, -1]),
     ("PythagoreanTriples", "N"): lambda rng, ctx: rng.choice([0, 1, 4, 5, 10, 13, 17, 20, 26, 30, -1]),
     ("VanDerWaerden", "N"): lambda rng, ctx: rng.choice([0, 1, 2, 3, 4, 5, 6, 8, 9, -1]),
     ("VanDerWaerden", "k1"): lambda rng, ctx: rng.choice([1, 2, 3, 4, 0, -1]),
